@@ -38,7 +38,7 @@ var c01Sinks = []string{"text", "vtext", "attr", "attr2", "bound", "vbind", "bou
 // and canary are still judged.
 var c01RawTextTags = map[string]bool{"noscript": true, "xmp": true, "iframe": true, "noembed": true, "noframes": true}
 var c01Constructs = []string{"plain", "if", "else", "for-root", "for-root2", "for-child", "for-tmpl", "for-obj",
-	"inc-static", "inc-bound", "inc-scope", "inc-troot", "inc-troot-req", "inc-troot-nested", "inc-wrap-twice", "inc-wrap-loop", "slot-default", "slot-named", "slot-prop", "layout-var", "layout-page"}
+	"inc-static", "inc-bound", "inc-scope", "inc-troot", "inc-troot-req", "inc-troot-nested", "inc-troot-comment", "inc-troot-fm-blank", "inc-troot-ws", "inc-wrap-twice", "inc-wrap-loop", "slot-default", "slot-named", "slot-prop", "layout-var", "layout-page"}
 var c01Nbhs = []string{"none", "plain", "entity", "attrs"}
 
 // decoded neighbour text per neighbourhood (source form, parsed form)
@@ -179,6 +179,12 @@ func c01Build(sink, construct, nbh string) c01Tpl {
 		t.litOK = false
 	case "inc-troot": // component file with a root <template> tag (the documented form)
 		t.files = map[string]string{"page.vuego": wrap(`<template include="c.vuego" :p="v"></template>`), "c.vuego": `<template><div class="c">` + mk("p", "") + `</div></template>`}
+	case "inc-troot-comment": // the root <template> follows a doc comment
+		t.files = map[string]string{"page.vuego": wrap(`<template include="c.vuego" :p="v"></template>`), "c.vuego": "<!-- Card: shows p -->\n<template><div class=\"c\">" + mk("p", "") + `</div></template>`}
+	case "inc-troot-fm-blank": // front-matter, an empty line, then the root <template>
+		t.files = map[string]string{"page.vuego": wrap(`<template include="c.vuego" p="{{ v }}"></template>`), "c.vuego": "---\nkind: card\n---\n\n<template :required=\"p\"><div class=\"c\">" + mk("p", "") + `</div></template>` + "\n"}
+	case "inc-troot-ws": // leading white space before the root <template>
+		t.files = map[string]string{"page.vuego": wrap(`<template include="c.vuego" :p="v"></template>`), "c.vuego": "\n  <template><div class=\"c\">" + mk("p", "") + "</div></template>\n"}
 	case "inc-troot-req":
 		t.files = map[string]string{"page.vuego": wrap(`<template include="c.vuego" p="{{ v }}"></template>`), "c.vuego": `<template :required="p">` + mk("p", "") + `<i v-for="x in two">{{ x }}</i></template>`}
 	case "inc-troot-nested": // root template that is itself an include
